@@ -168,10 +168,11 @@ def lookup (t : Items) (tag : UInt8) : Option Bytes := (t.find? (·.1 = tag)).ma
 
 abbrev Res := PS × Out × List Call
 
-/-- `_pairing_one` with `setup_srp_verifier`: every M1 creates a fresh verifier -/
+/-- `_pairing_one` with `setup_srp_verifier`: every M1 creates a fresh verifier; the answer carries
+    `salt, B = get_challenge()` with `long_to_bytes(B)` -/
 def pairingOne (cfg : Cfg) (ps : PS) (r : Req) : Res :=
   let srv := Srp.mk cfg.c.H cfg.G SRP_USER ps.pincode r.salt (bytesToNat r.bRand)
-  ({ ps with verifier := some srv }, .m2 srv.s srv.Bb, [])
+  ({ ps with verifier := some srv }, .m2 srv.getChallenge.1 (natToBytes srv.getChallenge.2), [])
 
 /-- `_pairing_two` -/
 def pairingTwo (cfg : Cfg) (ps : PS) (t : Items) : Res :=
@@ -293,7 +294,9 @@ inductive Ev
   /-- a connection is made and/or lost (`HAPServerProtocol.connection_made` / `connection_lost` →
       `AccessoryDriver.connection_lost`) -/
   | connLost
-  /-- any other request on an unverified connection (answered 401 / 4xx, no effect here) -/
+  /-- any other request on an unverified connection (answered 401 / 4xx, no effect here); also the
+      application starting / stopping the same driver object (`async_start` / `async_stop` touch neither the
+      verifier, nor the setup code, nor the pairings) -/
   | other
   /-- the accessory becomes unpaired again: the last admin pairing is removed (`POST /pairings` remove →
       `AccessoryDriver.unpair` → `State.remove_paired_client`, which clears every pairing with the last
